@@ -191,3 +191,77 @@ def _untuple(x):
     if isinstance(x, list):
         return tuple(_untuple(i) for i in x)
     return x
+
+
+def explore_adaptive(harnesses, levels, budget, nproc=None, chunk=400, hard_cap=None):
+    """Iterative bounding per harness: explores each harness at levels[0], then at the next level as long as
+    the next level is predicted (from the growth between the last two levels) to need at most `budget` executions.
+
+    harnesses: list of (spec, label); levels: list of {"K":..,"T":..}.  The deepest level completed for
+    every harness is recorded in notes['completed_bounds'] (label -> "K=..,T=.. (n executions)")."""
+    nproc = nproc or NPROC
+    total = Part()
+    done_bounds = {}
+    outstanding = {}  # (label, level) -> number of chunks in flight or queued
+    counts = {}
+    queue = []
+
+    def push(spec, label, li, prefix=([], [])):
+        outstanding[(label, li)] = outstanding.get((label, li), 0) + 1
+        queue.append((spec, dict(levels[li], level=li), prefix, chunk, label))
+
+    for spec, label in harnesses:
+        push(spec, label, 0)
+
+    def account(part, leftover, args):
+        spec, bounds, _, _, label = args
+        li = bounds["level"]
+        key = (label, li)
+        n = part.evals.get(label, 0)
+        counts[key] = counts.get(key, 0) + n
+        # evaluations of lower levels are re-explored by the deeper level: keep only the deepest level's count per harness
+        total.merge(part)
+        outstanding[key] -= 1
+        if leftover:
+            if hard_cap is not None and counts[key] >= hard_cap:
+                total.count("caps_hit")
+                total.notes["cap:" + label] = "level %r stopped after %d executions" % (levels[li], counts[key])
+            else:
+                for pre in leftover:
+                    push(spec, label, li, pre)
+        if outstanding[key] == 0:
+            done_bounds[label] = "K=%d,T=%d (%d executions)" % (levels[li]["K"], levels[li].get("T", 0), counts[key])
+            if li + 1 < len(levels) and not part.errors:
+                # predicted size of the next level: this level times the growth seen between the last two levels
+                prev = counts.get((label, li - 1), 0)
+                growth = max(3.0, float(counts[key]) / prev) if prev else 8.0
+                if counts[key] * growth <= budget:
+                    push(spec, label, li + 1)
+
+    if nproc == 1:
+        while queue:
+            part, leftover, args = explore_chunk(queue.pop())
+            account(part, leftover, args)
+    else:
+        ctx = multiprocessing.get_context("fork")
+        with ctx.Pool(nproc) as pool:
+            pending = []
+            while queue or pending:
+                while queue and len(pending) < nproc * 3:
+                    pending.append(pool.apply_async(explore_chunk, (queue.pop(),)))
+                time.sleep(0.002)
+                still = []
+                for r in pending:
+                    if r.ready():
+                        part, leftover, args = r.get()
+                        account(part, leftover, args)
+                    else:
+                        still.append(r)
+                pending = still
+    total.notes["completed_bounds"] = done_bounds
+    hist = {}
+    for v in done_bounds.values():
+        k = v.split(" ")[0]
+        hist[k] = hist.get(k, 0) + 1
+    total.notes["harnesses_by_deepest_completed_bound"] = hist
+    return total
